@@ -12,7 +12,7 @@ enum Kind : int { PUT, GET, CLEAR, OVR_ON, OVR_OFF, NKINDS };
 static const char *kind_name[] = {"put", "get", "clear", "override-on", "override-off"};
 struct Op { int kind; int64_t v; };
 struct Phase { int kind; size_t count; };
-struct Case { int type; size_t cap; std::vector<Op> ops; std::vector<Phase> phases; };   // type 0: octet_ring 1: u32 2: s16 3: double; phases: scripted bulk steps, observed after each phase
+struct Case { int type; size_t cap; std::vector<Op> ops; std::vector<Phase> phases; };   // type 0: octet_ring 1: u32 2: s16 3: double 4: uint8_t * (pointer ring); phases: scripted bulk steps, observed after each phase
 
 inline std::string serialise(const Case &c, size_t upto = (size_t)-1) {
     std::string s = vp::fmt("ring %d %zu\n", c.type, c.cap);
@@ -40,6 +40,10 @@ inline bool parse(const std::string &text, Case &c) {
 template <class T> inline T to_elem(int64_t v) { return (T)v; }
 template <> inline double to_elem<double>(int64_t v) { return v == 7 ? -0.0 : (double)(v - 20) / 8.0; }   // key 7 is the negative zero (key 20 the positive one)
 template <class T> inline int64_t from_elem(T x) { return (int64_t)x; }
+// the pointer ring stores addresses inside a static arena, 0x1000 apart and above 4 GiB (so that no part of the pointer is redundant); key 0 is the null pointer
+inline uint8_t *ptr_arena() { return (uint8_t *)(uintptr_t)0x7a5b00000000ull; }
+template <> inline uint8_t *to_elem<uint8_t *>(int64_t v) { return v == 0 ? nullptr : ptr_arena() + v * 0x1001; }
+template <> inline int64_t from_elem<uint8_t *>(uint8_t *x) { if (!x) return 0; int64_t d = (int64_t)(x - ptr_arena()); return d % 0x1001 == 0 ? d / 0x1001 : INT64_MIN + 9; }
 template <> inline int64_t from_elem<double>(double x) { if (x == 0.0 && std::signbit(x)) return 7 - 20; double k = x * 8.0; return (k == (double)(int64_t)k) ? (int64_t)k : INT64_MIN + 7; }
 
 // uniform view on the instantiations
@@ -151,7 +155,8 @@ inline std::string run_case(const Case &c) {
     case 0: return run_typed(C19_API(octet_ring, uint8_t), c);
     case 1: return run_typed(C19_API(u32_ring, uint32_t), c);
     case 2: return run_typed(C19_API(s16_ring, int16_t), c);
-    default: return run_typed(C19_API(f64_ring, double), c);
+    case 3: return run_typed(C19_API(f64_ring, double), c);
+    default: return run_typed(C19_API(ptr_ring, uint8_t *), c);
     }
 }
 
